@@ -17,7 +17,17 @@ import (
 // ${{ }} spans are unchanged, bytes inside are '_'; a span runs from the
 // leftmost ${{ to the next }} after it.
 func HarnessC20Sanitize(L int) {
-	src := verifSymString("script", L)
+	verifC20CheckSanitized(verifSymString("script", L))
+}
+
+// HarnessC20SanitizeIn: a placeholder whose inside is L arbitrary bytes (line
+// breaks included), with text before and after it and a second placeholder.
+func HarnessC20SanitizeIn(L int) {
+	verifC20CheckSanitized("a ${{" + verifSymString("inside", L) + "}} b ${{ c }}\n")
+}
+
+func verifC20CheckSanitized(src string) {
+	L := len(src)
 	out := sanitizeExpressionsInScript(src)
 	verifCheck(len(out) == L, "sanitised-script-length-differs")
 	if len(out) != L {
@@ -505,4 +515,58 @@ func HarnessC20TwoJobs() {
 		verifCheckf(n == want, "shellcheck-invocations-differ-from-effective-shell", src)
 	}
 	verifReach("linted")
+}
+
+// HarnessC20RunKey: the step's keys in three orders (run first, shell first,
+// shell between name and run), bash or python: the issue the tool reports
+// becomes a diagnostic at the position of the step's `run:` key.
+func HarnessC20RunKey() {
+	if verifIsNative() {
+		verifC20RunKeyNative()
+		return
+	}
+	py := verifChoose("python", 2) == 1
+	src, runLine := verifC20RunKeySource(verifChoose("order", 3), py)
+	verifC20R = verifC20Rec{}
+	verifOverride("(*externalCommand).run", verifC20RecRun)
+	verifOverride("encoding/json.Unmarshal", verifC20Unmarshal)
+	var rule Rule
+	if py {
+		rule = newRulePyflakes(&externalCommand{exe: "pyflakes"})
+	} else {
+		rule = newRuleShellcheck(&externalCommand{exe: "shellcheck"})
+	}
+	verifLintNode(verifParseYAML(src), []Rule{rule})
+	verifCheck(len(verifC20R.callbacks) == 1, "script-not-passed-to-the-tool-exactly-once")
+	if len(verifC20R.callbacks) != 1 {
+		return
+	}
+	verifC20JSON.fail, verifC20JSON.n = false, 1
+	out := []byte("[]")
+	if py {
+		out = []byte("<stdin>:1:1 msg\n")
+	}
+	err := verifC20R.callbacks[0](out, nil)
+	verifReach("callback")
+	verifCheck(err == nil, "valid-tool-output-turned-into-fatal-error")
+	verifCheck(len(rule.Errs()) == 1, "issue-count-differs-from-diagnostic-count")
+	for _, d := range rule.Errs() {
+		verifCheck(d.Line == runLine && d.Column == 9, "diagnostic-not-at-run-key")
+	}
+}
+
+func verifC20RunKeySource(order int, py bool) (string, int) {
+	sh := "bash"
+	script := "echo $FOO"
+	if py {
+		sh, script = "python", "import os"
+	}
+	head := "on: push\njobs:\n  j:\n    runs-on: ubuntu-latest\n    steps:\n"
+	switch order {
+	case 0:
+		return head + "      - run: " + script + "\n        shell: " + sh + "\n", 6
+	case 1:
+		return head + "      - shell: " + sh + "\n        run: " + script + "\n", 7
+	}
+	return head + "      - name: n\n        shell: " + sh + "\n        run: " + script + "\n", 8
 }
